@@ -91,6 +91,13 @@ def st_case(draw, rel):
     if rel == "union":
         fs = fs.filter(lambda f: any(isinstance(v, list) and len(v) > 1 for v in f.values()))
     f = draw(fs)
+    if rel in ("strengthen", "neighbours") and draw(st.integers(0, 7)) == 0:
+        # the base filter asks for a tag value at / beyond what an index key can hold, carried by one stored event
+        ev = draw(st.sampled_from(store))
+        name = draw(st.sampled_from(["t", "r", "e"]))
+        val = draw(st.sampled_from([qgen.VLONG, qgen.VLONG[:466], qgen.VLONG[:467], qgen.VLONG[:468], qgen.LONG]))
+        ev["tags"] = ev["tags"] + [[name, val]]
+        f = {"#" + name: [val]}
     case = {"backend": backend, "store": store, "filter": f, "rel": rel}
     if rel == "neighbours":
         case["neighbours"] = draw(st_neighbours(store, f))
